@@ -2,4 +2,10 @@ open Model
 (* the e2e components have no model run: the extracted monitors judge the implementation's traces *)
 let () = Driver.main [
   { Driver.name = "e2e_stream"; run = e2e_run; judge = e2e_stream_judge };
+  { Driver.name = "e2e_stream_c01"; run = e2e_run; judge = e2e_stream_judge_c01 };
+  { Driver.name = "e2e_stream_c02"; run = e2e_run; judge = e2e_stream_judge_c02 };
+  { Driver.name = "e2e_stream_c03"; run = e2e_run; judge = e2e_stream_judge_c03 };
+  { Driver.name = "e2e_stream_c12"; run = e2e_run; judge = e2e_stream_judge_c12 };
+  { Driver.name = "e2e_amp"; run = e2e_run; judge = e2e_amp_judge };
+  { Driver.name = "e2e_inject"; run = e2e_run; judge = e2e_inject_judge };
 ]
